@@ -15,15 +15,27 @@ META = dict(
     rule=("every configuration path runs in a fresh forked interpreter; in the end state, for the public table and every "
           "private table on which the groups were initialised, every element x every ancillary quantity is compared "
           "with the independent reader (entry or absence), and every magnetic / Cromer-Mann coefficient set is evaluated "
-          "on the Q grid against the closed form; cells are distinct by construction"),
+          "on the Q grid against the closed form; the Cromer-Mann entries are also read THROUGH THE ATOMS of every judged "
+          "table: every element, every ion (all charges of element.ions), every isotope and every isotope ion evaluates "
+          ".xray.f0(Q) on the Q grid to the closed form of the entry written for its symbol and charge, and an atom "
+          "without an entry serves no number; the other four tables are read through every isotope, ion and isotope ion "
+          "as well (the element's entry or nothing); cells are distinct by construction"),
     bound=dict(quick="6 configuration paths x all elements x all five tables (exhaustive over the tables)",
                thorough="all configuration paths up to length 4 x the same"),
     assumptions=["the embedded table text is the source of truth", "crystal-structure ownership is taken from the trailing "
                  "#Sym comment of each list entry when that label is a valid symbol occurring exactly once",
                  "Ho2+ J is listed twice in the CrysFML data: either record accepted",
-                 "the neutron (Z=0) covalent radius 0.20 is a statement of the loader, not a table entry: not judged"],
+                 "the neutron (Z=0) covalent radius 0.20 is a statement of the loader, not a table entry: not judged",
+                 "the x-ray form factor belongs to the chemical element and its charge: isotopes (D and T included) are "
+                 "served the entry of their element, isotope ions the entry of the element's ion; the valence-state "
+                 "entries 'Cval' and 'Siva' belong to no atom of the table",
+                 "an atom whose symbol and charge have no Cromer-Mann entry may raise, return None or NaN (all 'no data')",
+                 "an isotope, ion or isotope ion has no covalent-radius / structure / emission / magnetic entry of its "
+                 "own: it may serve its element's entry (same object, equal data, or equal records) or nothing; an ion may "
+                 "serve the magnetic form factors of its own charge state only"],
     level_text="complete over the finite domain (119 elements x 97 radii, 104 structure slots, 91 emission rows, 344 magnetic "
-               "records / 98 charge states, 211 Cromer-Mann entries) in each explored configuration; Q on a fixed grid",
+               "records / 98 charge states, 211 Cromer-Mann entries, and every isotope / ion / isotope-ion object of the table) "
+               "in each explored configuration; Q on a fixed grid",
     level_note="independent readers in mc/ref/tables.py and mc/ref/xray.py (regex / ast / tokenize; no eval, no shared code)",
 )
 
@@ -38,6 +50,21 @@ def ff0(c, q):
 
 def ffn(c, q):
     return (q / (4 * math.pi)) ** 2 * ff0(c, q)
+
+
+def same_data(got, want):
+    """The same entry: the same object, equal plain data, or (records such as the magnetic form factors, which may
+    be handed out as copies) equal attribute dictionaries."""
+    if got is want:
+        return True
+    try:
+        if isinstance(got, dict) and isinstance(want, dict):
+            return sorted(got) == sorted(want) and all(same_data(got[k], want[k]) for k in want)
+        if bool(got == want):
+            return True
+        return hasattr(got, "__dict__") and hasattr(want, "__dict__") and vars(got) == vars(want)
+    except Exception:
+        return False
 
 
 def load_cm():
@@ -236,6 +263,53 @@ def sweep(pt, T, label, path, acc):
                     v0 = float(fn(0.0))
                     if abs(v0) > 1e-12:
                         bad("magnetic-jn-at-0:" + kind, [Z, q], 0.0, v0, "print(T[%d].magnetic_ff[%d].%s_Q(0))" % (Z, q, kind))
+
+    # ---- the same quantities read through the other atom objects of an element (several types in one process):
+    # an isotope, an ion or an isotope ion has no entry of its own in these tables; what it serves is the entry of
+    # its element, or nothing (None / no attribute) - never other data
+    names = ("covalent_radius", "covalent_radius_uncertainty", "crystal_structure", "K_alpha", "K_beta1", "magnetic_ff")
+    for el in T:
+        Z = el.number
+        try:
+            own = [getattr(el, n, None) for n in names]
+        except Exception:
+            continue                    # reported above
+        atoms = [("isotope", A, 0) for A in el.isotopes]
+        for q in getattr(el, "ions", ()):
+            atoms.append(("ion", 0, q))
+            atoms += [("isotope-ion", A, q) for A in el.isotopes]
+        done = set()
+        for klass, A, q in atoms:
+            if klass in done:
+                continue
+            expr = "T[%d]" % Z + ("[%d]" % A if A else "") + (".ion[%d]" % q if q else "")
+            try:
+                atom = el[A] if A else el
+                if q:
+                    atom = atom.ion[q]
+            except Exception as e:
+                bad("atom-raises", [Z, A, q], "an atom", "%s: %s" % (type(e).__name__, e), "print(%s)" % expr)
+                break
+            for n, want in zip(names, own):
+                cells += 1
+                try:
+                    got = getattr(atom, n, None)
+                except Exception:
+                    continue            # nothing served
+                if got is None:
+                    continue
+                if n == "magnetic_ff" and q and isinstance(want, dict):
+                    # an ion may also be served its own charge state only (as a mapping or as the record)
+                    if isinstance(got, dict) and set(got) <= set(want) and all(same_data(got[k], want[k]) for k in got):
+                        continue
+                    if q in want and same_data(got, want[q]):
+                        continue
+                if not same_data(got, want):
+                    bad("%s-through-%s-differs-from-element" % (n.replace("_", "-"), klass), [Z, A, q],
+                        repr(want)[:300], repr(got)[:300],
+                        "print(getattr(%s, %r, None), getattr(T[%d], %r, None))" % (expr, n, Z, n))
+                    done.add(klass)     # one report per element and kind of atom
+                    break
     return cells
 
 
